@@ -644,8 +644,10 @@ func (ndb *nodeDB) DeleteVersionsFrom(fromVersion int64) error {
 		if err != nil {
 			return err
 		}
-		for _, kv := range legacyRoots {
-			k, v := kv[0], kv[1]
+		// Newest version first: deleting the nodes of a version reads the nodes it shares with
+		// older versions (to skip them), so those must not be deleted, and possibly flushed, yet.
+		for i := len(legacyRoots) - 1; i >= 0; i-- {
+			k, v := legacyRoots[i][0], legacyRoots[i][1]
 			var version int64
 			legacyRootKeyFormat.Scan(k, &version)
 			// delete the legacy nodes (an empty root value is the root of an empty tree: no nodes)
